@@ -16,7 +16,7 @@ from ..report import short
 from ..snapshot import snapshot
 
 glom = env.bind()
-from glom import (T, M, And, Or, Not, Match, MatchError, TypeMatchError, Regex, Optional, Required, GlomError,  # noqa: E402
+from glom import (T, M, And, Or, Not, Match, MatchError, TypeMatchError, Regex, Optional, Required, GlomError, Val,  # noqa: E402
                   glom as G)
 
 META = {
@@ -675,6 +675,47 @@ def one_pattern(col, rng, depth=None):
         judge(col, p, desc, t, 'unrelated')
 
 
+def optional_defaults_and_compound_keys(col):
+    """(1) "a value equal to the target plus Optional defaults": a default is evaluated like any argument - a container
+    literal is built anew for every match (several rows of one call, several calls of one pattern, whatever the caller did to
+    earlier results), a Val / T default yields its value.  (2) a tuple key whose non-constant members sit two levels deep is
+    a pattern key like any other: optional unless Required, and Required / Optional accept or refuse it accordingly"""
+    pat = Match({'id': int, Optional('tags', default=[]): list, Optional('meta', default={'n': []}): dict,
+                 Optional('mode', default=Val('rw')): str, Optional('copy', default=T['id']): int})
+    for n in (1, 2, 3):
+        got = call(G, {'id': n}, pat)
+        want = {'id': n, 'tags': [], 'meta': {'n': []}, 'mode': 'rw', 'copy': n}
+        col.case(('optional-default-per-match', 'calls', n), True)
+        col.count('conforming_targets')
+        if not got.ok or got.value != want:
+            col.violation('C09/optional-default-not-evaluated-per-match:call-%s' % ('first' if n == 1 else 'repeated'),
+                          'call #%d of one Match object on {id: %d}: %r, expected %r' % (n, n, got, want), None)
+            break
+        got.value['tags'].append('urgent'); got.value['meta']['n'].append(1); got.value['meta']['x'] = 1
+    rows = call(G, [{'id': 1}, {'id': 2}, {'id': 3, 'tags': ['own']}], Match([{'id': int, Optional('tags', default=[]): list}]))
+    col.case(('optional-default-per-match', 'rows'), True)
+    if not rows.ok or rows.value != [{'id': 1, 'tags': []}, {'id': 2, 'tags': []}, {'id': 3, 'tags': ['own']}] or \
+            rows.value[0]['tags'] is rows.value[1]['tags']:
+        col.violation('C09/optional-default-not-evaluated-per-match:rows', 'rows of one call: %r (first two tags lists the same object: %s)'
+                      % (rows, rows.ok and rows.value[0]['tags'] is rows.value[1]['tags']), None)
+    # (2)
+    for key, kdesc in ((((int, int), 'seg'), "((int, int), 'seg')"), (((M > 0, 1), 'x'), "((M > 0, 1), 'x')"),
+                       ((frozenset({int}), 'x'), "(frozenset({int}), 'x')")):
+        pattern = {'name': str, key: float}
+        for target, conforms in (({'name': 'p'}, True), ({'name': 'p', ((1, 2), 'seg') if key[1] == 'seg' else ((1, 1), 'x') if isinstance(key[0], tuple) else (frozenset({3}), 'x'): 1.5}, True),
+                                 ({'name': 'p', ((1, 2), 'other'): 1.5}, False)):
+            got = call(G, target, Match(pattern))
+            col.case(('compound-key-depth-2', kdesc, conforms, len(target)), True)
+            col.count('conforming_targets' if conforms else 'rejected_targets')
+            if got.ok != conforms or (got.ok and got.value != target):
+                col.violation('C09/nested-compound-key-%s' % ('conforming-target-rejected' if conforms else 'accepted'),
+                              'Match({name: str, %s: float}) on %r: %r' % (kdesc, target, got), None)
+        req, opt = call(Required, key), call(Optional, key)
+        if not req.ok or opt.ok:
+            col.violation('C09/nested-compound-key-required-optional', 'Required(%s) -> %r, Optional(%s) -> %r (a key with non-constant members is a '
+                          'pattern key: Required accepts it, Optional refuses it)' % (kdesc, req, kdesc, opt), None)
+
+
 def repeated_dict_pattern(col, rng):
     """ONE dict pattern object matched against several dicts within one Match run (list elements, dict values, nested rows):
     each of them must satisfy the pattern on its own - a required key missing from any single row is a rejection"""
@@ -705,5 +746,6 @@ def run(ctx):
     col.require('snapshots_compared', 500)
     if ctx.shard == 0:
         repeated_dict_pattern(col, rng)
+        optional_defaults_and_compound_keys(col)
     for i in range(ctx.n(1200, 15000)):
         one_pattern(col, rng)
